@@ -47,7 +47,7 @@ def c11_octave_floor(o: int, d: int) -> bool:
 
 
 POOL = ["C", "B#", "Cb", "F#", "Bb", "E", "G##", "Abb"]
-OPS = [("T", "3"), ("T", "b3"), ("T", "#4"), ("T", "7"), ("T", "1"), ("T", "b2"), ("T", "bb7"), ("A", None), ("D", None), ("AD", None)]
+OPS = [("T", "3"), ("T", "#1"), ("T", "#4"), ("T", "7"), ("T", "1"), ("T", "b2"), ("T", "bb7"), ("A", None), ("D", None), ("AD", None), ("T", "b3"), ("T", "b1"), ("T", "##1")]
 
 
 def _snap_nc(nc):
